@@ -1,19 +1,30 @@
 (* Proofs/DeLocSpan.v — with source text (every node and key of the tree has a span): the span of a
    deserialization error (Model/DeLoc.v) is the span of the node — or key — the error was raised at,
    through any nesting of structs, maps, sequences, tuples, options, newtypes and enum variants.
-   Not claimed for KDtKind (the Date / Time kind check is raised outside the node's wrappers: it gets
-   the span of the next wrapper further out — refuted by example in Props/C15serde.v) and for
-   KUnmodelled (paths the model does not follow). *)
+   This includes the Date / Time kind check, which is raised outside the wrappers of its own node: it
+   gets the node's span from the access that handed the node out (next_value_seed, next_element_seed,
+   newtype_variant_seed, deserialize_option / _newtype_struct); only when the date-time is the very
+   node de_loc was called on is there no such access.
+   Not claimed for KUnmodelled (paths the model does not follow). *)
 From TV Require Import Base.Prelude Base.Utf8 Model.Datetime Model.DatetimeStd Model.SerNum Spec.SerdeData Model.De Model.SerdeSpanned.
 From TV Require Import Model.DeLoc Proofs.DeLocBase.
 
-Definition claimed (k : ekind) : Prop := k <> KDtKind /\ k <> KUnmodelled.
+Definition claimed (k : ekind) : Prop := k <> KUnmodelled.
 Definition located (s : stree) (e : lerr) : Prop :=
   exists sp, e_span e = Some sp /\ locate s (e_at e) (e_onkey e) = Some (Some sp).
+(* located *)
 Definition linv (s : stree) (e : lerr) : Prop :=
   (e_onkey e = true -> e_at e <> []) /\ (claimed (e_kind e) -> located s e).
 (* inside a node, before its wrapper: located already, or still without span and raised here *)
 Definition binv (s : stree) (e : lerr) : Prop := linv s e \/ fresh_nospan e.
+(* what T::deserialize(node) returns: located, or the kind check of a Date / Time at this very node *)
+Definition ninv (s : stree) (e : lerr) : Prop :=
+  linv s e \/ (fresh_nospan e /\ (e_kind e = KDtKind \/ e_kind e = KUnmodelled)).
+
+Lemma B_of_ninv {A} s (r : lres A) : errs (ninv s) r -> errs (binv s) r.
+Proof. intro H. eapply errs_impl; [exact H|]. intros e [L|[F _]]; [left; exact L|right; exact F]. Qed.
+Lemma N_of_linv {A} s (r : lres A) : errs (linv s) r -> errs (ninv s) r.
+Proof. intro H. eapply errs_impl; [exact H|]. intros e L. left. exact L. Qed.
 
 Lemma B_of_fresh {A} s (r : lres A) : errs fresh_nospan r -> errs (binv s) r.
 Proof. intro H. eapply errs_impl; [exact H|]. intros e F. right. exact F. Qed.
@@ -62,18 +73,22 @@ Proof.
 Qed.
 
 (* next_value_seed on the i-th entry *)
-Lemma L_value_of_entry {A} sp es i e (r : lres A) :
-  nth_error es i = Some e -> errs (linv (en_val e)) r -> errs (linv (NTab sp es)) (value_of_entry i e r).
+Lemma L_under_key_add {A} sp es i e (r : lres A) :
+  nth_error es i = Some e -> errs (linv (en_val e)) r ->
+  errs (linv (NTab sp es)) (under (SKey i (en_key e)) (addkey (en_key e) r)).
 Proof.
   intros Hn H. destruct r as [a|err]; [exact I|]. destruct H as [O L].
-  unfold value_of_entry, under, addkey, wrap. cbn [map_err errs].
-  unfold linv, located in *.
-  destruct (e_span err) as [p|] eqn:Es.
-  - split; [cbn; discriminate|]. cbn [e_kind e_span e_at e_onkey]. intro C.
-    destruct (L C) as (sp' & E & Loc). exists sp'. split; [congruence|].
-    rewrite <- Loc. exact (locate_key sp es i e _ _ Hn O).
-  - split; [cbn; discriminate|]. cbn [e_kind set_span]. intro C.
-    destruct (L C) as (sp' & E & _). congruence.
+  unfold under, addkey. cbn [map_err errs]. unfold linv, located in *. cbn [e_kind e_span e_at e_onkey].
+  split; [discriminate|]. intro C. destruct (L C) as (sp' & E & Loc). exists sp'. split; [exact E|].
+  rewrite <- Loc. exact (locate_key sp es i e _ _ Hn O).
+Qed.
+
+Lemma L_value_of_entry {A} sp es i e (r : lres A) :
+  nth_error es i = Some e -> has_span (span_of (en_val e)) = true ->
+  errs (binv (en_val e)) r -> errs (linv (NTab sp es)) (value_of_entry i e r).
+Proof.
+  intros Hn Hs H. unfold value_of_entry. destruct (has_span_some _ Hs) as [vsp Ev]. rewrite Ev, <- Ev.
+  apply L_under_key_add; [exact Hn|]. apply L_wrap; assumption.
 Qed.
 
 (* next_key_seed on the i-th entry *)
@@ -143,7 +158,11 @@ Lemma all_spans_here s : all_spans s = true -> has_span (span_of s) = true.
 Proof. destruct s; cbn [all_spans]; rewrite andb_true_iff; intros [H _]; exact H. Qed.
 
 Definition lok (de : ty -> stree -> lres sval) (t : ty) : Prop :=
-  forall x, all_spans x = true -> errs (linv x) (de t x).
+  forall x, all_spans x = true -> errs (ninv x) (de t x).
+
+(* an element handed out by ArraySeqAccess / newtype_variant_seed: its errors come back located *)
+Lemma L_handed_out de t x : lok de t -> all_spans x = true -> errs (linv x) (wrap (span_of x) (de t x)).
+Proof. intros Hde Hx. apply L_wrap; [apply all_spans_here; exact Hx|apply B_of_ninv; apply Hde; exact Hx]. Qed.
 
 Section Visitors.
   Variable de : ty -> stree -> lres sval.
@@ -154,7 +173,7 @@ Section Visitors.
   Proof.
     intro Hde. induction xs as [|x xs IH]; intros pre F; [exact I|]. inversion F; subst. cbn [seq_elems].
     apply errs_lbind.
-    - apply L_under_idx with (x := x); [|apply Hde; assumption].
+    - apply L_under_idx with (x := x); [|apply L_handed_out; assumption].
       rewrite <- (Nat.add_0_r (length pre)). rewrite nth_error_app_skip. reflexivity.
     - intros v _. apply errs_lbind; [|intros vs _; exact I].
       specialize (IH (pre ++ [x])). rewrite <- app_assoc, app_length, Nat.add_1_r in IH. apply IH. assumption.
@@ -169,7 +188,7 @@ Section Visitors.
     induction l as [|a l IH]; intros Fl xs pre F; [exact I|]. inversion Fl; subst. cbn [pos_elems].
     destruct xs as [|x xs]; [apply B_of_fresh; apply (@fresh_raise (list sval))|]. inversion F; subst.
     apply errs_lbind.
-    - apply B_of_linv. apply L_under_idx with (x := x); [|auto].
+    - apply B_of_linv. apply L_under_idx with (x := x); [|apply L_handed_out; assumption].
       rewrite <- (Nat.add_0_r (length pre)). rewrite nth_error_app_skip. reflexivity.
     - intros v _. apply errs_lbind; [|intros vs _; exact I].
       specialize (IH H2 xs (pre ++ [x])). rewrite <- app_assoc, app_length, Nat.add_1_r in IH. apply IH. assumption.
@@ -183,7 +202,7 @@ Section Visitors.
     induction l as [|a l IH]; intros Fl xs pre F Len; [exact I|]. inversion Fl; subst. cbn [pos_elems].
     destruct xs as [|x xs]; [cbn in Len; lia|]. inversion F; subst. cbn [length] in Len.
     apply errs_lbind.
-    - apply L_under_idx with (x := x); [|auto].
+    - apply L_under_idx with (x := x); [|apply L_handed_out; assumption].
       rewrite <- (Nat.add_0_r (length pre)). rewrite nth_error_app_skip. reflexivity.
     - intros v _. apply errs_lbind; [|intros vs _; exact I].
       specialize (IH H2 xs (pre ++ [x])). rewrite <- app_assoc, app_length, Nat.add_1_r in IH. apply IH; [assumption|lia].
@@ -202,7 +221,7 @@ Section Visitors.
     cbn [map_entries]. apply errs_lbind.
     - apply L_key_of_entry; [apply nth_pre|exact Hk|apply fresh_de_key].
     - intros k _. apply errs_lbind.
-      + apply L_value_of_entry; [apply nth_pre|apply Hde; exact Hv].
+      + apply L_value_of_entry; [apply nth_pre|apply all_spans_here; exact Hv|apply B_of_ninv; apply Hde; exact Hv].
       + intros v _. apply errs_lbind; [|intros ps _; exact I].
         specialize (IH (pre ++ [e])). rewrite <- app_assoc, app_length, Nat.add_1_r in IH. apply IH. exact F'.
   Qed.
@@ -220,7 +239,7 @@ Section Visitors.
     - intros j t Hin. rewrite Forall_forall in Ff. specialize (Ff _ Hin). cbn [snd] in Ff.
       destruct (existsb (Nat.eqb j) seen); [apply B_of_fresh; apply (@fresh_raise (list (nat * sval)))|].
       apply errs_lbind.
-      + apply B_of_linv. apply L_value_of_entry; [apply nth_pre|apply Ff; exact Hv].
+      + apply B_of_linv. apply L_value_of_entry; [apply nth_pre|apply all_spans_here; exact Hv|apply B_of_ninv; apply Ff; exact Hv].
       + intros v _. apply errs_lbind; [apply IH'|]. intros r _. exact I.
   Qed.
 
@@ -249,7 +268,7 @@ Section Visitors.
     induction ts as [|t ts IH]; intros Ft xs F Len; [exact I|]. inversion Ft; subst. cbn [pos_entries].
     destruct xs as [|[i e] xs]; [cbn in Len; lia|]. inversion F as [|? ? [Hn Hv] F']; subst. cbn [fst snd length] in *.
     apply errs_lbind.
-    - apply L_under_pos; [exact Hn|auto].
+    - apply L_under_pos; [exact Hn|apply L_handed_out; assumption].
     - intros v _. apply errs_lbind; [apply IH; [assumption|assumption|lia]|]. intros vs _. exact I.
   Qed.
 End Visitors.
@@ -287,48 +306,52 @@ Proof.
     apply errs_lbind.
     + apply (L_key_of_entry sp (e :: es) 0 e); [reflexivity|exact Hk|].
       destruct (bytes_eqb (en_key e) DT_FIELD); [exact I|apply (@fresh_raise unit)].
-    + intros _ _. apply (L_value_of_entry sp (e :: es) 0 e); [reflexivity|].
-      apply L_wrap; [apply all_spans_here; exact Hv|]. apply B_of_fresh.
+    + intros _ _. apply (L_value_of_entry sp (e :: es) 0 e); [reflexivity|apply all_spans_here; exact Hv|].
+      apply B_of_linv. apply L_wrap; [apply all_spans_here; exact Hv|]. apply B_of_fresh.
       destruct (en_val e) as [sp' x'|sp' xs'|sp' es']; try apply (@fresh_raise datetime).
       destruct x'; try apply (@fresh_raise datetime). apply fresh_de_dt.
 Qed.
 
 (* ---- the deserializer ---- *)
-Theorem L_de_loc c t : opt_overwrite c = false -> forall s, all_spans s = true -> errs (linv s) (de_loc c t s).
+Theorem L_de_loc c t : opt_overwrite c = false -> forall s, all_spans s = true -> errs (ninv s) (de_loc c t s).
 Proof.
   intro NoSeed.
   induction t using ty_ind2 with (Q := fun var => forall y, all_spans y = true -> errs (linv y) (de_payload c var y));
     intros s Hs; pose proof (all_spans_here s Hs) as Hh;
-    try (cbn [de_loc]; apply L_wrap; [exact Hh|apply B_of_fresh; apply fresh_visit_scalar]).
+    try (cbn [de_loc]; apply N_of_linv; apply L_wrap; [exact Hh|apply B_of_fresh; apply fresh_visit_scalar]).
   - (* datetime *)
-    cbn [de_loc]. apply errs_lbind; [apply L_de_datetime; exact Hs|]. intros d _.
-    destruct (dt_kind_ok k d); [exact I|]. cbn. split; [discriminate|]. intros [C _]. exfalso. apply C. reflexivity.
+    cbn [de_loc]. apply errs_lbind; [apply N_of_linv; apply L_de_datetime; exact Hs|]. intros d _.
+    destruct (dt_kind_ok k d); [exact I|]. right. split; [repeat split|left; reflexivity].
   - (* option *)
-    cbn [de_loc]. rewrite NoSeed. apply L_wrap; [exact Hh|]. apply B_of_linv. apply errs_lmap. apply IHt. exact Hs.
+    cbn [de_loc]. rewrite NoSeed. apply N_of_linv. apply L_wrap; [exact Hh|]. apply B_of_ninv. apply errs_lmap. apply IHt. exact Hs.
   - (* seq *)
-    cbn [de_loc]. apply L_wrap; [exact Hh|]. destruct s as [sp x|sp xs|sp es]; try (apply B_of_fresh; apply (@fresh_raise sval)).
+    cbn [de_loc]. apply N_of_linv. apply L_wrap; [exact Hh|].
+    destruct s as [sp x|sp xs|sp es]; try (apply B_of_fresh; apply (@fresh_raise sval)).
     apply all_spans_arr in Hs as [_ F]. apply B_of_linv. apply errs_lmap. exact (L_seq_elems (de_loc c) sp t xs IHt [] F).
   - (* tuple *)
-    cbn [de_loc]. apply L_wrap; [exact Hh|]. destruct s as [sp x|sp xs|sp es]; try (apply B_of_fresh; apply (@fresh_raise sval)).
+    cbn [de_loc]. apply N_of_linv. apply L_wrap; [exact Hh|].
+    destruct s as [sp x|sp xs|sp es]; try (apply B_of_fresh; apply (@fresh_raise sval)).
     apply all_spans_arr in Hs as [_ F]. apply errs_lmap. exact (L_pos_elems (de_loc c) (fun t' => t') sp ts H xs [] F).
   - (* map *)
-    cbn [de_loc]. apply L_wrap; [exact Hh|]. destruct s as [sp x|sp xs|sp es]; try (apply B_of_fresh; apply (@fresh_raise sval)).
+    cbn [de_loc]. apply N_of_linv. apply L_wrap; [exact Hh|].
+    destruct s as [sp x|sp xs|sp es]; try (apply B_of_fresh; apply (@fresh_raise sval)).
     + destruct x; apply B_of_fresh; apply (@fresh_raise sval).
     + apply all_spans_tab in Hs as [_ F]. apply B_of_linv. apply errs_lmap. exact (L_map_entries (de_loc c) sp t1 t2 es IHt2 [] F).
   - (* struct *)
     cbn [de_loc]. destruct (private_name n).
-    + cbn. split; [discriminate|]. intros [_ C]. exfalso. apply C. reflexivity.
-    + apply L_wrap; [exact Hh|]. destruct s as [sp x|sp xs|sp es].
+    + right. split; [repeat split|right; reflexivity].
+    + apply N_of_linv. apply L_wrap; [exact Hh|]. destruct s as [sp x|sp xs|sp es].
       * destruct x; apply B_of_fresh; apply (@fresh_raise sval).
       * apply all_spans_arr in Hs as [_ F]. apply errs_lmap. exact (L_pos_elems (de_loc c) (fun ft => snd ft) sp fs H xs [] F).
       * apply all_spans_tab in Hs as [_ F]. apply errs_lmap. apply L_struct_from_table; assumption.
   - (* newtype *)
-    cbn [de_loc]. apply L_wrap; [exact Hh|]. apply B_of_linv. apply errs_lmap. apply IHt. exact Hs.
+    cbn [de_loc]. apply N_of_linv. apply L_wrap; [exact Hh|]. apply B_of_ninv. apply errs_lmap. apply IHt. exact Hs.
   - (* tuple struct *)
-    cbn [de_loc]. apply L_wrap; [exact Hh|]. destruct s as [sp x|sp xs|sp es]; try (apply B_of_fresh; apply (@fresh_raise sval)).
+    cbn [de_loc]. apply N_of_linv. apply L_wrap; [exact Hh|].
+    destruct s as [sp x|sp xs|sp es]; try (apply B_of_fresh; apply (@fresh_raise sval)).
     apply all_spans_arr in Hs as [_ F]. apply errs_lmap. exact (L_pos_elems (de_loc c) (fun t' => t') sp ts H xs [] F).
   - (* enum *)
-    cbn [de_loc]. apply L_wrap; [exact Hh|]. destruct s as [sp x|sp xs|sp es].
+    cbn [de_loc]. apply N_of_linv. apply L_wrap; [exact Hh|]. destruct s as [sp x|sp xs|sp es].
     + destruct x; try (apply B_of_linv; apply (L_raise_at_here (NLeaf sp _)); exact Hh).
       apply find_name_errs; [apply B_of_fresh; apply (@fresh_raise sval)|].
       intros j a _. destruct a; try exact I; apply B_of_fresh; apply (@fresh_raise sval).
@@ -344,7 +367,7 @@ Proof.
   - (* unit variant *)
     cbn [de_payload]. destruct (sempty_container s); [exact I|]. apply L_raise_at_here. exact Hh.
   - (* newtype variant *)
-    cbn [de_payload]. apply IHt. exact Hs.
+    cbn [de_payload]. apply L_wrap; [exact Hh|]. apply B_of_ninv. apply IHt. exact Hs.
   - (* tuple variant *)
     cbn [de_payload]. destruct s as [sp x|sp xs|sp es].
     + apply (L_raise_at_here (NLeaf sp x)). exact Hh.
@@ -358,7 +381,7 @@ Proof.
   - (* struct variant *)
     cbn [de_payload]. destruct s as [sp x|sp xs|sp es].
     + destruct x; try (apply (L_wrap (NLeaf sp _)); [exact Hh|apply B_of_fresh; apply (@fresh_raise sval)]).
-      cbn. split; [discriminate|]. intros [_ C]. exfalso. apply C. reflexivity.
+      cbn. split; [discriminate|]. intros C. exfalso. apply C. reflexivity.
     + apply (L_wrap (NArr sp xs)); [exact Hh|]. apply all_spans_arr in Hs as [_ F]. apply errs_lmap.
       exact (L_pos_elems (de_loc c) (fun ft => snd ft) sp fs H xs [] F).
     + apply all_spans_tab in Hs as [_ F]. destruct (first_extra_key (map fst fs) es 0) as [[i e]|] eqn:FE.
@@ -374,10 +397,22 @@ Proof.
       * apply (L_wrap (NTab sp es)); [exact Hh|]. apply errs_lmap. apply L_struct_from_table; assumption.
 Qed.
 
-(* the statement *)
+(* the statements *)
 Theorem span_with_text c t s e :
-  opt_overwrite c = false -> all_spans s = true -> de_loc c t s = LErr e -> claimed (e_kind e) ->
+  opt_overwrite c = false -> all_spans s = true -> de_loc c t s = LErr e -> e_kind e <> KUnmodelled ->
+  (exists sp, e_span e = Some sp /\ locate s (e_at e) (e_onkey e) = Some (Some sp)) \/
+  (e_kind e = KDtKind /\ e_at e = [] /\ e_span e = None).
+Proof.
+  intros NoSeed Hs E C. pose proof (L_de_loc c t NoSeed s Hs) as H. rewrite E in H.
+  destruct H as [[_ L]|[[(_ & A & _) N] [K|K]]]; [left; exact (L C)|right; repeat split; assumption|contradiction].
+Qed.
+
+(* whoever hands the node out attaches its span: the error a visitor sees for an element of an array, a
+   value of a table, the payload of a newtype variant, the inside of an option is always located *)
+Theorem span_handed_out c t s e :
+  opt_overwrite c = false -> all_spans s = true -> wrap (span_of s) (de_loc c t s) = LErr e -> e_kind e <> KUnmodelled ->
   exists sp, e_span e = Some sp /\ locate s (e_at e) (e_onkey e) = Some (Some sp).
 Proof.
-  intros NoSeed Hs E C. pose proof (L_de_loc c t NoSeed s Hs) as H. rewrite E in H. exact (proj2 H C).
+  intros NoSeed Hs E C.
+  pose proof (L_handed_out (de_loc c) t s (fun x Hx => L_de_loc c t NoSeed x Hx) Hs) as H. rewrite E in H. exact (proj2 H C).
 Qed.
